@@ -195,6 +195,115 @@ let run_solve (h : (string, string) Hashtbl.t) : string =
          | SolOutOfRange -> Buffer.add_string buf (Printf.sprintf "sol %s outofrange\n" (hx q))) query);
   Buffer.contents buf
 
+(* ---------------- matrix / lu ---------------- *)
+let parse_st (s : string) : storage =
+  if s = "identity" then SIdentity else if s = "full" then SFull
+  else match split_on '-' s with
+    | [_; ml; mu] -> SBanded (nat_of_int (int_of_string ml), nat_of_int (int_of_string mu))
+    | _ -> failwith "st"
+
+let st_name = function
+  | SIdentity -> "identity" | SFull -> "full"
+  | SBanded (ml, mu) -> Printf.sprintf "banded-%d-%d" (int_of_nat ml) (int_of_nat mu)
+
+let ctor (s : string) : float matrix option =
+  let p = Array.of_list (split_on ':' s) in
+  let u i = nat_of_int (int_of_string p.(i)) in
+  let lst i = unlist (p.(i) ^ ":" ^ (if Array.length p > i + 1 then p.(i + 1) else "")) in
+  match p.(0) with
+  | "identity" -> Some (identity fops (u 1))
+  | "zeros" -> Some (zeros fops (u 1) (u 2))
+  | "full" -> Some (full fops (u 1) (u 2))
+  | "square" -> Some (square (u 1))
+  | "banded" -> Some (banded fops (u 1) (u 2) (u 3))
+  | "lower" -> Some (lower_triangular fops (u 1))
+  | "upper" -> Some (upper_triangular fops (u 1))
+  | "diag" -> Some (diagonal (lst 1))
+  | "fromvec" -> from_vec (u 1) (u 2) (lst 3)
+  | "fromstorage" -> Some (from_storage fops (u 1) (u 2) (parse_st p.(3)))
+  | _ -> failwith "ctor"
+
+let build (c : string) (w : string) : float matrix option =
+  match ctor c with
+  | None -> None
+  | Some m ->
+    let body = body_after_colon w in
+    if body = "" then Some m else
+      List.fold_left (fun acc t ->
+          match acc with
+          | None -> None
+          | Some m ->
+            (match split_on '/' t with
+             | [i; j; v] -> set m (nat_of_int (int_of_string i)) (nat_of_int (int_of_string j)) (unhx v)
+             | _ -> failwith "write")) (Some m) (split_on ',' body)
+
+let run_matrix (h : (string, string) Hashtbl.t) : string =
+  let buf = Buffer.create 1024 in
+  match build (Hashtbl.find h "a") (get h "aw" "0:") with
+  | None -> "A panic\n"
+  | Some a ->
+    Buffer.add_string buf "A ok\n";
+    let bspec = get h "b" "none" in
+    let b = if bspec = "none" then Some None else
+        (match build bspec (get h "bw" "0:") with None -> None | Some b -> Some (Some b)) in
+    (match b with
+     | None -> Buffer.add_string buf "B panic\n"; Buffer.contents buf
+     | Some b ->
+       let op = get h "op" "none" in
+       let p = Array.of_list (split_on ':' op) in
+       let getb () = match b with Some b -> b | None -> failwith "no b" in
+       let r = match p.(0) with
+         | "none" -> Some a
+         | "add" | "addassign" -> addsub fops false a (getb ())
+         | "sub" | "subassign" -> addsub fops true a (getb ())
+         | "cadd" -> Some (caddsub fops false a (unhx p.(1)))
+         | "csub" -> Some (caddsub fops true a (unhx p.(1)))
+         | "cmul" -> Some (cmul fops a (unhx p.(1)))
+         | "cmulmut" -> Some (cmul_mut fops a (unhx p.(1)))
+         | _ -> failwith "op" in
+       (match r with
+        | None -> Buffer.add_string buf "op panic\n"
+        | Some r ->
+          let n = int_of_nat r.m_n and m = int_of_nat r.m_m in
+          Buffer.add_string buf (Printf.sprintf "R %s %d %d\n" (st_name r.m_st) n m);
+          Buffer.add_string buf (Printf.sprintf "data %s\n" (hxlist r.m_data));
+          for i = 0 to n - 1 do
+            let row = List.init m (fun j -> match Model.get fops r (nat_of_int i) (nat_of_int j) with Some v -> hx v | None -> "P") in
+            Buffer.add_string buf (Printf.sprintf "row %d %s\n" i (String.concat "," row))
+          done;
+          Buffer.add_string buf (Printf.sprintf "oob %s\n" (match Model.get fops r r.m_n O with Some _ -> "ok" | None -> "P"));
+          Buffer.add_string buf (Printf.sprintf "isid %s\n"
+                                   (match is_identity fops r with Some true -> "true" | Some false -> "false" | None -> "P")));
+       Buffer.contents buf)
+
+let run_lu (h : (string, string) Hashtbl.t) : string =
+  let buf = Buffer.create 1024 in
+  let n = int_of_string (Hashtbl.find h "n") and cols = int_of_string (Hashtbl.find h "cols")
+  and iplen = int_of_string (Hashtbl.find h "iplen") in
+  let adata = Array.of_list (unlist (Hashtbl.find h "a")) in
+  let b0 = Array.of_list (unlist (Hashtbl.find h "b")) in
+  if Array.length adata <> n * cols then "res panic\n" else begin
+    let a i j = let i = int_of_nat i and j = int_of_nat j in
+      if i < n && j < cols then adata.(i * cols + j) else 0.0 in
+    (match lu_decomp fops (nat_of_int n) (nat_of_int cols) (nat_of_int iplen) a (fun _ -> nat_of_int 7) with
+     | LuSingular -> Buffer.add_string buf "res singular\n"
+     | LuNonSquare -> Buffer.add_string buf "res nonsquare\n"
+     | LuPivotSize -> Buffer.add_string buf "res pivotsize\n"
+     | LuOk (lu, ip) ->
+       Buffer.add_string buf "res ok\n";
+       let cells = List.concat (List.init n (fun i -> List.init n (fun j -> lu (nat_of_int i) (nat_of_int j)))) in
+       Buffer.add_string buf (Printf.sprintf "lu %s\n" (hxlist cells));
+       let nip = if n = 1 then 1 else n - 1 in
+       Buffer.add_string buf (Printf.sprintf "ip %s\n" (String.concat "," (List.init nip (fun k -> string_of_int (int_of_nat (ip (nat_of_int k)))))));
+       if Array.length b0 < n then Buffer.add_string buf "solve panic\n" else begin
+         let b i = let i = int_of_nat i in if i < Array.length b0 then b0.(i) else 0.0 in
+         let x = lin_solve fops (nat_of_int n) lu ip b in
+         Buffer.add_string buf (Printf.sprintf "x %s\n" (hxlist (List.init (Array.length b0) (fun i -> x (nat_of_int i)))));
+         Buffer.add_string buf "a_untouched true\n"
+       end);
+    Buffer.contents buf
+  end
+
 let () =
   try
     while true do
@@ -206,6 +315,8 @@ let () =
           try
             (match kind with
              | "solve" -> run_solve h
+             | "matrix" -> run_matrix h
+             | "lu" -> run_lu h
              | _ -> "unknown-kind\n")
           with
           | Stack_overflow -> "driver-stack-overflow\n"
